@@ -48,8 +48,16 @@ func runBitsTask(test int, bits []bool) string {
 	if test < 1 || test > 15 {
 		return ""
 	}
-	r := protoAt(test, defaults[test-1], bits)
-	return fmt.Sprint(r["Pb"], r["Qb"], r["P2b"], r["Q2b"])
+	// every documented parameter of the test (backward cumulative sums, longest run of zeros, k = 15, ...), not only the default
+	s := ""
+	for _, pr := range documented[test] {
+		if len(bits) < minLen(test, pr) {
+			continue
+		}
+		r := protoAt(test, pr, bits)
+		s += fmt.Sprint(pr, ":", r["Pb"], r["Qb"], r["P2b"], r["Q2b"], ";")
+	}
+	return s
 }
 
 func concurrentCmd(job []byte, out *Out) error {
